@@ -142,8 +142,12 @@ theorem hVerts_range (lo hi : Rat) (vls : List Seg) (h : Seg) (wf : h.b ≤ h.f)
       · unfold hBase at hq
         rcases List.mem_append.mp hq with hq | hq
         · exact inr q hq
-        · obtain ⟨_, _, rfl⟩ := List.mem_map.mp hq
-          exact atb _ rfl
+        · obtain ⟨v, hv, rfl⟩ := List.mem_map.mp hq
+          have hcond := (List.mem_filter.mp hv).2
+          simp only [Bool.and_eq_true, Bool.or_eq_true, beq_iff_eq] at hcond
+          rcases hcond.1 with e | e
+          · exact atb _ e
+          · exact atf _ e
       · exact atb q hq
     · exact atf q hq
   · obtain ⟨v, hv, hvp⟩ := List.mem_map.mp hq
@@ -163,12 +167,8 @@ theorem vVerts_range (lo hi : Rat) (hls : List (Seg × List LV)) (v : Seg) (wf :
       split at hq
       · rename_i hc
         have hc := crosses_iff.mp hc
-        rcases List.mem_append.mp hq with hq | hq
-        · obtain ⟨_, _, rfl⟩ := List.mem_map.mp hq
-          exact ⟨hc.1, hc.2.1⟩
-        · split at hq
-          · simp only [List.mem_singleton] at hq; subst hq; exact ⟨hc.1, hc.2.1⟩
-          · simp at hq
+        obtain ⟨_, _, rfl⟩ := List.mem_map.mp hq
+        exact ⟨hc.1, hc.2.1⟩
       · simp at hq
     · rw [hq]; exact ⟨le_refl _, wf⟩
   · rw [hq]; exact ⟨wf, le_refl _⟩
